@@ -13,6 +13,20 @@ def _state_sets(w):
     return set(ms.started_line_ids), set(ms.executed_line_ids), set(ms.failed_line_ids)
 
 
+def resolve(w, op):
+    """Turn an abstract edit / cancel / force op into the concrete request it means in the current state,
+    without sending it: ("edit", new_lines) | ("cancel"|"force", exec_id) | None."""
+    from simcore.core import RunResult
+    d = {"__resolve_only__": True}
+
+    class _Skip(dict):
+        def values(self):
+            return []
+    box = _Skip(d)
+    execute(w, op, box, RunResult(), None, [])
+    return box.get("__resolved__")
+
+
 def execute(w, op, by_name, res, tape, fp):
     k = op[0]
     if k == "edit":
@@ -110,6 +124,9 @@ def _edit(w, op, by_name, res, fp):
         new_lines = lines
     else:
         raise HarnessError(f"unknown edit kind {kind}")
+    if by_name.get("__resolve_only__"):
+        by_name["__resolved__"] = ("edit", new_lines)
+        return
     for o in by_name.values():
         f = getattr(o, "before_edit", None)
         if f:
@@ -146,6 +163,9 @@ def _cancel_force(w, op, by_name, res, fp):
     else:
         item = cands[k % len(cands)]
         target_id = item.id
+    if by_name.get("__resolve_only__"):
+        by_name["__resolved__"] = (what, target_id)
+        return
     for o in by_name.values():
         f = getattr(o, "before_cancel_force", None)
         if f:
